@@ -78,15 +78,29 @@ structure WS where
   fields : List (List FP)
   cur : List FP             -- curField
   allowEmpty : Bool
+  wsDelim : Bool            -- the last field was ended by IFS white space
 deriving Repr, DecidableEq
 
-def WS.init : WS := ⟨[], [], false⟩
+def WS.init : WS := ⟨[], [], false, false⟩
 
 /-- `flush := func() { if len(curField) == 0 { return }; fields = append(fields, curField); curField = nil }` -/
 def flush (w : WS) : WS :=
   if w.cur.length == 0 then w else { w with fields := w.fields ++ [w.cur], cur := [] }
 
 def addPart (w : WS) (p : FP) : WS := { w with cur := w.cur ++ [p] }
+
+/-- `cfg.ifsWhitespace(r)`. -/
+def ifsWs (ifs : Str) (r : Char) : Bool := wsRune r && ifsRune ifs r
+
+/-- `delimit := func(r rune) { switch { … } }`: end the current field at the IFS character `r`
+    (POSIX 2.6.5): a field that has begun is flushed; otherwise IFS white space is ignored, a
+    non-white-space character completes a delimiter begun by white space, or else makes an empty
+    field (`fields = append(fields, nil)`). -/
+def delimit (ifs : Str) (w : WS) (r : Char) : WS :=
+  if w.cur.length > 0 then { flush w with wsDelim := ifsWs ifs r }
+  else if ifsWs ifs r then w
+  else if w.wsDelim then { w with wsDelim := false }
+  else { w with fields := w.fields ++ [[]] }
 
 /-- The `for i, r := range val` loop of `splitAdd`; `acc = some (val[fieldStart:i])` when
     `fieldStart >= 0`. -/
@@ -97,9 +111,9 @@ def splitLoop (ifs : Str) : WS → Option Bytes → Str → WS × Option Bytes
       let w1 := match acc with
         | some b => addPart w ⟨b, 0⟩      -- ending a field
         | none => w
-      splitLoop ifs (flush w1) none rest
+      splitLoop ifs (delimit ifs w1 s.r) none rest
     else
-      splitLoop ifs w (some (acc.getD [] ++ s.bs)) rest
+      splitLoop ifs { w with wsDelim := false } (some (acc.getD [] ++ s.bs)) rest
 
 def splitAdd (ifs : Str) (w : WS) (val : Str) : WS :=
   match splitLoop ifs w none val with
@@ -137,23 +151,28 @@ def addQuotedElems : WS → Bool → List Bytes → WS
     let w1 := if first then w else flush w
     addQuotedElems (addPart w1 ⟨e, 1⟩) false rest
 
-/-- `for j, elem := range elems { if j > 0 { flush() }; splitAdd(elem) }` -/
+/-- `sep, _ := utf8.DecodeRuneInString(cfg.ifs)`
+    `for j, elem := range elems { if j > 0 { if cfg.ifs == "" { flush() } else { delimit(sep) } }; splitAdd(elem) }`:
+    the elements are separated as if by the first IFS character (as bash does). -/
 def addUnquotedElems (ifs : Str) : WS → Bool → List Str → WS
   | w, _, [] => w
   | w, first, e :: rest =>
-    let w1 := if first then w else flush w
+    let w1 := if first then w else
+      match ifs with
+      | [] => flush w
+      | sep :: _ => delimit ifs w sep.r
     addUnquotedElems ifs (splitAdd ifs w1 e) false rest
 
 /-- One iteration of `for i, wp := range wps` (`first` is `i == 0`). -/
-def partStep (env : Env) (w : WS) (first : Bool) : Part → WS
+def partStep (env : Env) (w : WS) (_first : Bool) : Part → WS
   | .lit s =>
-    -- expandUser returns ("", s) as `s` does not start with `~`; the empty quoted prefix is
-    -- appended all the same
-    let w1 := if first then addPart w ⟨[], 3⟩ else w
-    addPart w1 ⟨unbackslash s, 0⟩
+    -- expandUser returns ("", s) as `s` does not start with `~`: no prefix part; an empty
+    -- literal (left by brace expansion) is skipped
+    if s.isEmpty then w else addPart w ⟨unbackslash s, 0⟩
   | .sgl s => addPart { w with allowEmpty := true } ⟨s, 3⟩
   | .dbl [.at] => addQuotedElems w true (env.params.map strBytes)
   | .dbl [.star] => addQuotedElems w true [joinBytes (ifsSep env.ifs) (env.params.map strBytes)]
+  | .dbl [] => addPart { w with allowEmpty := true } ⟨[], 1⟩    -- `if len(wfield) == 0 { … }`
   | .dbl ps => (ps.map (dpartVal env)).foldl (fun w v => addPart w ⟨v, 1⟩) { w with allowEmpty := true }
   | .exp v => splitAdd env.ifs w v
   | .at => addUnquotedElems env.ifs w true env.params
@@ -244,18 +263,22 @@ def dqItems (env : Env) : List DPart → Option Bytes → List Item
     -- nothing in it expands to nothing, as in bash)
     dqItems env rest (if acc.isNone && v.isEmpty then none else some (acc.getD [] ++ v))
 
-def unquotedElems : List Str → List Item
+/-- Unquoted `$@` / `$*`: the parameters, separated by the first IFS character, are split as a
+    whole (bash; POSIX lets the empty fields this can make be kept or dropped); with an empty IFS
+    nothing splits and each parameter is a field of its own. -/
+def unquotedElems (ifs : Str) : List Str → List Item
   | [] => []
   | [p] => p.map .u
-  | p :: q :: rest => p.map .u ++ .brk :: unquotedElems (q :: rest)
+  | p :: q :: rest =>
+    p.map .u ++ (match ifs with | [] => Item.brk | sep :: _ => Item.u sep) :: unquotedElems ifs (q :: rest)
 
 def partItems (env : Env) : Part → List Item
   | .lit s => [.lit (unbackslash s)]
   | .sgl s => [.quoted s]
   | .dbl ps => dqItems env ps (if containsAt ps then none else some [])
   | .exp v => v.map .u
-  | .at => unquotedElems env.params
-  | .star => unquotedElems env.params
+  | .at => unquotedElems env.ifs env.params
+  | .star => unquotedElems env.ifs env.params
 
 /-- State of the splitting scan: the fields delimited so far, the current field (`none`: not
     begun), and whether the last delimiter was IFS white space that ended a field (a following
@@ -300,23 +323,14 @@ def posixSplit (ifs : Str) (items : List Item) : List Bytes :=
 def posixFields (env : Env) (parts : List Part) : List Bytes :=
   posixSplit env.ifs (parts.flatMap (partItems env))
 
-/-! ### The region in which the unchanged code is proved to meet the specification -/
-
-/-- No non-white-space IFS character from an unquoted expansion delimits an *empty* field. -/
-def noEmptyDelim (ifs : Str) : SS → List Item → Bool
-  | _, [] => true
-  | st, it :: rest =>
-    let bad := match it with
-      | .u s => ifsRune ifs s.r && !wsRune s.r && st.cur.isNone && !st.pend
-      | _ => false
-    !bad && noEmptyDelim ifs (splitStep ifs st it) rest
+/-! ### The words for which the code is proved to meet the specification -/
 
 def dpartOk : DPart → Bool
   | .lit s => !s.contains 0                     -- no NUL byte in source text
   | _ => true
 
 def partOk : Part → Bool
-  | .lit s => !s.isEmpty                        -- the parser never yields an empty literal (brace expansion does)
+  | .lit _ => true
   | .dbl ps => (!containsAt ps || ps == [.at]) && ps.all dpartOk   -- `$@` inside double quotes stands alone
   | _ => true
 
@@ -327,16 +341,5 @@ def plain : Part → Bool
   | .sgl _ => true
   | .dbl ps => !containsAt ps
   | _ => false
-
-/-- Hypothesis of `split_spec_partial` (mirrored by `c22Excluded` in harness/c22.go):
-    no empty unquoted literal, `$@` alone in its double quotes, an empty `""` only in words made
-    of literals and quotes, and no non-white-space IFS character delimiting an empty field. -/
-def Clean (env : Env) (parts : List Part) : Prop :=
-  parts.all partOk = true ∧
-  (parts.contains (.dbl []) = true → parts.all plain = true) ∧
-  noEmptyDelim env.ifs SS.init (parts.flatMap (partItems env)) = true
-
-instance (env : Env) (parts : List Part) : Decidable (Clean env parts) := by
-  unfold Clean; exact inferInstance
 
 end ShVerif.C22
